@@ -59,3 +59,59 @@ func CheckGossipRound() (cases int, problems []string) {
 }
 
 var _ = gossip.VMsgDigest
+
+// CheckLeaveAnnounced drives the real Gossip.Leave() of the last node of a
+// cluster of n for EVERY subset of peers that cannot be reached (their stream
+// dial fails: they crashed a moment ago and nobody has noticed yet), several
+// times each because the order in which Leave tries the peers is random in
+// production and not under the harness' control. Whenever at least one peer
+// is reachable the departure must be announced: some reachable peer records
+// the node as left.
+func CheckLeaveAnnounced(repeats int) (cases int, problems []string) {
+	for _, n := range []int{3, 4, 5} {
+		ids := []string{"nA", "nB", "nC", "nD", "nE"}[:n]
+		leaver := n - 1
+		for mask := 0; mask < 1<<uint(n-1); mask++ {
+			if mask == 1<<uint(n-1)-1 {
+				continue // nobody is reachable: nothing can be announced
+			}
+			for r := 0; r < repeats; r++ {
+				cases++
+				var init []Event
+				for pass := 0; pass < 2; pass++ {
+					for i := 1; i < n; i++ {
+						init = append(init, ev("join", i, 0))
+					}
+				}
+				sc := &Scenario{Name: "leave-announced", IDs: ids, MaxPacket: 1400, MaxHolds: -1, Init: init, LeaveMasks: true,
+					Ops: map[int][]Event{leaver: {{Kind: "leave"}}}, MaxOps: map[int]int{leaver: 1}}
+				w := NewWorld(sc, &Stats{})
+				knows := 0
+				for _, md := range w.nodes[leaver].State.Nodes() {
+					if md.ID != ids[leaver] {
+						knows++
+					}
+				}
+				if knows != n-1 {
+					problems = append(problems, fmt.Sprintf("harness: the leaving node knows %d of %d peers", knows, n-1))
+					return
+				}
+				w.Replay(Event{Kind: "leave", A: leaver, Perm: mask})
+				announced := false
+				for j := 0; j < n-1; j++ {
+					if mask&(1<<uint(j)) != 0 {
+						continue
+					}
+					if ns, ok := w.nodes[j].State.Node(ids[leaver]); ok && ns.Left {
+						announced = true
+					}
+				}
+				if !announced {
+					problems = append(problems, fmt.Sprintf("cluster of %d: %s leaves while the peers in mask %0*b are unreachable (not yet noticed): no reachable peer was told, the survivors will see it as unreachable, not as left (attempt %d of %d; the order in which Leave tries peers is random)", n, ids[leaver], n-1, mask, r+1, repeats))
+					break
+				}
+			}
+		}
+	}
+	return
+}
